@@ -186,6 +186,8 @@ def defect(e):
 
 
 def run(ctx):
+    from .C03 import sequence_add_rule
+    sequence_add_rule(ctx, "R1")
     # reverse-strand parts of a feature are read and written through complement(): the table behind it (seqtypes.py)
     from .C03 import complement_table_rules
     complement_table_rules(ctx, "R2")
@@ -262,7 +264,18 @@ def run(ctx):
             for combo in itertools.combinations(sorted(members), r_):
                 table[frozenset(combo)] = ev(dexpr, frozenset(combo))
     except _Unknown as ex:
-        raise AnalysisError(f"anchor vanished: mirrored defect is not a flag-wise function of loc.defect ({ex})")
+        if isinstance(darg, ast.Name) and str(ex) == darg.id:
+            # the accumulator is not bound inside the iteration: it carries the flags of the previous location over
+            ctx.ob("R2.mirror-starts-empty", ANN, "AnnotatedSequence.reverse_complement", f"{darg.id} starts from NONE for every location", False,
+                   f"`{darg.id}` is not reset inside the loop over the locations: the mirrored defects of one location are carried into the "
+                   "next one of the same feature", rc.lineno)
+            table = None
+        else:
+            raise AnalysisError(f"anchor vanished: mirrored defect is not a flag-wise function of loc.defect ({ex})")
+    if table is None:
+        members = []
+        table = {frozenset(): frozenset()}
+        expect = {}
     ctx.count("mirror-flag-sets", len(table))
     carried = sorted(m for m in expect if m in table[frozenset([m])])
     ctx.ob("R2.mirror-starts-empty", ANN, "AnnotatedSequence.reverse_complement", "no defect -> no defect; sided defects are not carried over",
